@@ -719,6 +719,22 @@ def check_keywords_paired_by_name(repo, rep):
     fi = mod.functions.get('_is_specialization_of')
     if fi is None:
         raise AnalysisError('anchor vanished: runner._is_specialization_of')
+    # the pairing may live in a helper the two mappings are handed to
+    cands = [fi]
+    for c in model.calls_in(fi.node):
+        if isinstance(c.func, ast.Name) and sum(
+                1 for a in c.args if isinstance(a, ast.Name) and
+                a.id in fi.params()) >= 2:
+            h = mod.functions.get(c.func.id)
+            if h is not None and h.parent_func is None:
+                cands.append(h)
+    for cand in cands:
+        if any(isinstance(st, ast.Assign) and isinstance(
+                st.value, ast.Name) and st.value.id in cand.params() and
+                isinstance(st.targets[0], ast.Tuple)
+                for st in model.walk_shallow(cand.node)):
+            fi = cand
+            break
     ps = fi.params()
     kw = {}
     for st in model.walk_shallow(fi.node):
